@@ -33,10 +33,12 @@ def run(model, rep):
                  ('C09.ORD', 'reads of tainted are dominated by resolve_names'), ('C09.OWN', 'taint writes are monotone')]:
         rep.rule(r, t)
 
-    # ---------------- TRIG: the whole bind + resolve run on probe modules with a trigger in every position (incl. star import)
-    trigger_positions(model, rep)
+    # ---------------- E2E: the real minify() with renaming and hoisting on, on modules with a trigger in every position: nothing may be renamed
+    rep.rule('C09.E2E', 'end to end: with renaming and hoisting requested, a module with a dynamic-name trigger in any position comes out with every name and literal as with those options off')
+    frozen_end_to_end(model, rep)
+    # ---------------- TRIG (white-box): the whole bind + resolve run on the same probe modules, the flag read from the module node
+    rep.optional(['C09.TRIG'], ['C09.E2E'], lambda: (trigger_positions(model, rep), rep.floor('C09.TRIG', 17)))
     rep.note('an `exec` statement exists only in Python 2 trees; this interpreter cannot produce one, the clause is not decided here')
-    rep.floor('C09.TRIG', 17)
 
     # ---------------- GATE: minify() itself evaluated for a tainted module (pmstatic.apirun, every stage a recorder)
     from .. import apirun
@@ -144,6 +146,9 @@ TAINT_PROBES = [
     ('trigger first, then more code', "x = eval('1')\ndef f(a):\n    return a\nclass K:\n    y = 2\nz = [i for i in f(3)]\nprint(len(z))\n", True),
     ('class attribute of the same name plus a genuine use', "class E:\n    def eval(self, s):\n        return s\n    __call__ = eval\ndef run(e):\n    return eval(e)\n", True),
     ('class attribute named vars plus a genuine use', "class K:\n    vars = (1, 2)\n    req = frozenset(vars)\ndef show(o):\n    return vars(o)\n", True),
+    ('method of a class nested in a class that binds the name', "class Outer:\n    def eval(self, s):\n        return s\n    class Inner:\n        def run(self, e):\n            return eval(e)\n", True),
+    ('method of a class nested two levels deep', "class A1:\n    vars = 1\n    class B1:\n        vars = 2\n        class C1:\n            def run(self, e):\n                return vars(e)\n", True),
+    ('function in a class in a function that binds the name', "def outer():\n    class K:\n        globals = 1\n        def m(self):\n            return globals()\n    return K\n", True),
     ('control: no trigger', "x = len(y)\n", False),
     ('control: module defines its own eval', "def eval(s):\n    return s\nx = eval('1')\n", False),
     ('control: attribute named eval', "x = obj.eval('1')\n", False),
@@ -217,6 +222,46 @@ def gate_tree(model, rep, rule, switch_locals, switch_globals, preserve, expect_
         raise AnalysisError('the nested-scope probe produced only %d bindings' % n)
     rep.check(not wrong, rule, 'src/python_minifier/rename/util.py', '%s on a module with %d bindings in scopes nested inside expressions, decorators, defaults and class bodies' % (what, n),
               'every binding is as required', '; '.join(wrong[:4]), key=key, cells=n)
+
+
+FREEZE_TAIL = '''
+def helper_function(first_value, second_value):
+    intermediate_total = first_value + second_value
+    return 'a repeated literal text' + repr(intermediate_total) + 'a repeated literal text' + 'a repeated literal text' + repr(intermediate_total)
+module_level_total = helper_function(1, 2) + helper_function(3, 4)
+'''
+
+
+def frozen_end_to_end(model, rep):
+    from ..absprint import print_obj
+    from ..minrun import minify_tree
+    mi = model.func('python_minifier.minify')
+
+    def text(source, **opts):
+        kind, tree, mod = minify_tree(model, source, opts)
+        if kind != 'ok':
+            return None, 'minify raises %s' % (tree,)
+        kind, t = print_obj(model, mod)
+        if kind != 'ok':
+            return None, 'printing: %s %s' % (kind, t)
+        return t, None
+    changed_controls = 0
+    for (label, source, want) in TAINT_PROBES:
+        src_ = source + FREEZE_TAIL
+        key = 'C09.E2E|' + label
+        off, err0 = text(src_)
+        on, err1 = text(src_, rename_locals=True, rename_globals=True, hoist_literals=True)
+        if err0 or err1:
+            rep.violation('C09.E2E', mi.loc(), 'trigger position: %s' % label, err1 or err0, key=key)
+            continue
+        if want:
+            rep.check(on == off, 'C09.E2E', mi.loc(), 'trigger position: %s, renaming and hoisting requested' % label, 'output identical to the one with those options off',
+                      'a module with a dynamic-name trigger in position `%s` is renamed / gets aliases: %r' % (label, on[:160]), key=key)
+        else:
+            changed_controls += on != off
+            rep.ok('C09.E2E', mi.loc(), 'control without a trigger: %s -> %s' % (label, 'renamed' if on != off else 'unchanged'), 'the probe is sensitive', key=key)
+    rep.sensitive(changed_controls >= 3, 'none of the control modules without a trigger is renamed: the freeze rule cannot see anything')
+    rep.floor('C09.E2E', 20)
 
 
 def trigger_positions(model, rep):
